@@ -21,7 +21,7 @@ import (
 )
 
 func main() {
-	drv.Main(map[string]drv.Cmd{"c11": run, "c11elect": drv.ElectConcCmd("c11elect", "C11"), "c11snap": drv.SnapCmd("C11")})
+	drv.Main(map[string]drv.Cmd{"c11": run, "c11elect": drv.ElectConcCmd("c11elect", "C11"), "c11snap": drv.SnapCmd("C11"), "c11rib": runRibConcCmd})
 }
 
 type c11Case struct {
